@@ -71,18 +71,26 @@ def cplxUncRbRegime (cut : Cuts α) (beta : α) : Option Regime :=
   classify cut 1 beta 0 (some true) false
 
 /-- PATCHED rigid-body rows of one system, each row given as `(m, b, (d0, v0), force)`:
-`pc.beta_rb is None` iff `not np.any(beta)`; `pc.rbd is None` iff no row is above the velocity cut-off
-(`pvvelo.size == 0`); returns per row the regime used (`none`: today's loop), `(d, v)` and `a` -/
-def cplxUncRbRowsFixed (cut : Cuts α) (order1 : Bool) (h : α) (rows : List (Option α × α × (α × α) × List α)) :
-    List (Option Regime × List (α × α) × List α) :=
+`pc.beta_rb is None` iff `not np.any(beta)` (`isZero`); `pc.rbd is None` iff no row is above the velocity cut-off
+(`pvvelo.size == 0`; `regimeOf beta` is `cplxUncRbRegime cut |beta|`: at `Float` the absolute value, for complex
+doubles the modulus); returns per row the regime used (`none`: today's loop), `(d, v)` and `a` -/
+def cplxUncRbRowsFixedG {β : Type} [Add β] [Sub β] [Mul β] [Div β] [Neg β]
+    [OfNat β 0] [OfNat β 1] [OfNat β 2] [OfNat β 3] [TransOps β]
+    (regimeOf : β → Option Regime) (isZero : β → Bool) (order1 : Bool) (h : β)
+    (rows : List (Option β × β × (β × β) × List β)) : List (Option Regime × List (β × β) × List β) :=
   let betas := rows.map fun r => cplxUncRbBeta r.1 r.2.1
-  let anyDamped := betas.any fun x => !(x == 0)
-  let regs := betas.map (cplxUncRbRegime cut)
+  let anyDamped := betas.any fun x => !(isZero x)
+  let regs := betas.map regimeOf
   let rbdNone := regs.all fun r => r == some .rigid
   (rows.zip regs).map fun (row, reg) =>
     let r : Option Regime := if rbdNone then none else reg
     let hist := cplxUncRbDVFixed order1 h row.1 row.2.1 r row.2.2.1 row.2.2.2
     (r, hist, cplxUncRbAccFixed anyDamped row.1 row.2.1 (hist.map Prod.snd) row.2.2.2)
+
+/-- the same for an ordered scalar type (`Float`: real doubles) -/
+def cplxUncRbRowsFixed (cut : Cuts α) (order1 : Bool) (h : α) (rows : List (Option α × α × (α × α) × List α)) :
+    List (Option Regime × List (α × α) × List α) :=
+  cplxUncRbRowsFixedG (cplxUncRbRegime cut) (fun x => x == 0) order1 h rows
 
 end sys
 
